@@ -3,14 +3,14 @@
 pid=$1; wt=/tmp/wt_$pid
 git -C /repo worktree add -q --detach $wt HEAD || exit 2
 cp -a --reflink=auto /repo/target $wt/target
-python3 - "$pid" "$wt" <<'PY'
+python3 - "$pid" "$wt" "${SEED_PROMPT:-seed_prompt_round2.txt}" <<'PY'
 import json,sys
-pid,wt=sys.argv[1:3]
+pid,wt,prompt=sys.argv[1:4]
 for l in open('/verif/properties.jsonl'):
     p=json.loads(l)
     if p['id']==pid:
         json.dump(p,open(wt+'/PROPERTY.json','w'),indent=1); title=p['title']
-t=open('/verif/tools/seed_prompt_round2.txt').read().replace('C03',pid).replace('"Scanning follows the RDH chain exactly in every input mode"','"%s"'%title)
+t=open('/verif/tools/'+prompt).read().replace('C03',pid).replace('"Scanning follows the RDH chain exactly in every input mode"','"%s"'%title)
 open('/tmp/p2_%s.txt'%pid,'w').write(t)
 PY
 echo "$wt ready"
